@@ -21,7 +21,7 @@ from ..tlaval import dump_chunks, parse_state
 
 PROP = "C01"
 ALLV = '{"plain", "prefix", "multi", "nextbrace", "bracegroup", "arrow", "throws", "lineabove", "tailwrap"}'
-ALLS = '{"plain", "strdelim", "trailing", "inline"}'
+ALLS = '{"plain", "strdelim", "trailing", "inline", "mlstr"}'
 ALLC = '{"if", "loop", "try"}'
 ALLK = '{"F","K","C","E","A","X","S","M","B","R"}'
 CONFIGS = {
